@@ -3,6 +3,7 @@ package main
 import (
 	"fmt"
 	"io"
+	"os"
 	"strings"
 	"time"
 
@@ -44,6 +45,9 @@ func c18Inputs(tier string) []c18Input {
 	ins = append(ins, c18Input{Name: "error-first-entry", Text: "a:\n  nosep\n", FailAt: -1})
 	// unreadable
 	ins = append(ins, c18Input{Name: "nonexistent-file", File: "/nonexistent/verif/file.yaml", FailAt: -1})
+	ins = append(ins, c18Input{Name: "directory-as-file", File: os.TempDir(), FailAt: -1})
+	ins = append(ins, c18Input{Name: "over-long-line-after-a-record", Text: "a:\n  x: 1\nb:\n  " + strings.Repeat("n", 70000) + ": 1\n", FailAt: -1})
+	ins = append(ins, c18Input{Name: "over-long-first-line", Text: strings.Repeat("n", 70000) + ":\n  x: 1\n", FailAt: -1})
 	full := strings.Join(good, "")
 	offs := []int{0, 5, len(full) - 1}
 	if tier == "thorough" {
